@@ -511,6 +511,59 @@ func ruleNonEmpty(c *Ctx, r *RuleResult, calleeName string) {
 	}
 }
 
+// ruleBytewise: the labels of the automaton are bytes and words are byte strings. Iterating a word
+// with `range` over a string, or converting it to or from runes, decodes UTF-8: a byte >= 0x80 then
+// becomes U+FFFD or part of a multi-byte rune and the word looked up is not the word that was added.
+func ruleBytewise(c *Ctx, r *RuleResult, pkgRel string) {
+	pkg := c.Pkg(pkgRel)
+	n := 0
+	for _, fn := range c.Funcs {
+		if fn.Synthetic != "" || fn.Blocks == nil || fnPkg(fn) == nil || fnPkg(fn).Pkg != pkg.Types {
+			continue
+		}
+		n++
+		bad := 0
+		for _, b := range fn.Blocks {
+			for _, in := range b.Instrs {
+				switch x := in.(type) {
+				case *ssa.Range:
+					if bt, ok := x.X.Type().Underlying().(*types.Basic); ok && bt.Info()&types.IsString != 0 {
+						bad++
+						r.find(c.short(fn)+":range over string", c.instrPos(in), "%s iterates a string with range, which yields runes decoded from UTF-8, in a package whose words are byte strings: a word containing a byte >= 0x80 is walked as different labels", c.short(fn))
+					}
+				case *ssa.Convert:
+					from, to := x.X.Type().Underlying(), x.Type().Underlying()
+					isRunes := func(t types.Type) bool {
+						sl, ok := t.(*types.Slice)
+						if !ok {
+							return false
+						}
+						b, ok := sl.Elem().Underlying().(*types.Basic)
+						return ok && b.Kind() == types.Int32
+					}
+					isStr := func(t types.Type) bool {
+						b, ok := t.(*types.Basic)
+						return ok && b.Info()&types.IsString != 0
+					}
+					isRune := func(t types.Type) bool {
+						b, ok := t.(*types.Basic)
+						return ok && b.Kind() == types.Int32
+					}
+					if (isStr(from) && isRunes(to)) || (isRunes(from) && isStr(to)) || (isRune(from) && isStr(to)) {
+						bad++
+						r.find(c.short(fn)+":rune conversion", c.instrPos(in), "%s converts between a string and runes in a package whose words are byte strings", c.short(fn))
+					}
+				}
+			}
+		}
+		r.inst("%s: no rune-wise iteration or conversion of words", c.short(fn))
+		r.oblig(bad == 0)
+	}
+	if n == 0 {
+		r.undecided("no functions found in package %s", pkgRel)
+	}
+}
+
 func init() {
 	dawgPure := []string{"(*dawg.Dawg).Lookup", "(*dawg.Dawg).NumberOfWords", "(*dawg.Dawg).GobEncode", "(*dawg.Dawg).numberOfNodes", "(*dawg.Dawg).listNodesCountEdges", "(*dawg.Dawg).Search"}
 	dawgWriters := []string{"(*dawg.Dawg).commonPrefix", "(*dawg.Dawg).addSuffix", "dawg.replaceOrRegister", "(*dawg.Dawg).GobDecode", "(*dawg.Builder).Add", "(*dawg.Builder).Finish"}
@@ -537,7 +590,9 @@ func init() {
 			}
 			ww := ruleWhoWrites(c, "WHO-WRITES", "dawg", "Dawg", dawgWriters, "only construction-time functions may write Dawg nodes")
 			ww.MinInst = 4
-			return []*RuleResult{rp, mg, ne, pure, ww}
+			bw := &RuleResult{Rule: "BYTEWISE", Doc: "words are byte strings: no function of package dawg iterates a string with range or converts between strings and runes", MinInst: 20}
+			ruleBytewise(c, bw, "dawg")
+			return []*RuleResult{rp, mg, ne, pure, ww, bw}
 		},
 		controls: func(ctl *Ctx) []*RuleResult {
 			var out []*RuleResult
@@ -559,6 +614,9 @@ func init() {
 			ne := &RuleResult{Rule: "NONEMPTY"}
 			ruleNonEmpty(ctl, ne, "guardctl.lastKid")
 			out = append(out, ne)
+			bw := &RuleResult{Rule: "BYTEWISE"}
+			ruleBytewise(ctl, bw, "guardctl")
+			out = append(out, bw)
 			return out
 		},
 	})
